@@ -475,17 +475,19 @@ pub fn jobs(prop: &str, tier: &str) -> Vec<Job> {
             c.n_forms = 1;
             life(&mut out, c, if thorough { 4 } else { 3 }, &[], &|i| i.ordered, &|_, _| {});
             use crate::m_huff::*;
-            let mut profiles = vec![fib_profile(3), fib_profile(6), uniform_profile(3, 1)];
+            // fib12 / fib18: codes longer than one / two bytes for the compared symbols
+            let mut profiles = vec![fib_profile(3), fib_profile(6), uniform_profile(3, 1), fib_profile(12)];
             if thorough {
                 profiles.extend(small_profiles(3));
-                profiles.push(fib_profile(12));
+                profiles.push(fib_profile(18));
+                profiles.push(uniform_profile(300, 1));
             } else {
                 profiles.extend(small_profiles(2));
             }
             for p in profiles {
                 let p2 = p.clone();
                 out.push(job(move || Box::new(HuffCmpMachine::<u8>::new(p.clone())), Mode::Bfs(BfsCfg::new(1)), false));
-                if p2.name.starts_with("uniform") || p2.name == "fib12" {
+                if p2.name.starts_with("uniform") || p2.name == "fib12" || p2.name == "fib18" {
                     out.push(job(move || Box::new(HuffCmpMachine::<u16>::new(p2.clone())), Mode::Bfs(BfsCfg::new(1)), false));
                 }
             }
